@@ -182,9 +182,13 @@ func BlockedSummary(bs []sched.BlockedG) string {
 func AppBlocked(bs []sched.BlockedG) []sched.BlockedG {
 	var out []sched.BlockedG
 	for _, b := range bs {
-		if !b.Daemon && !IsLibrary(b.Name) {
-			out = append(out, b)
+		if b.Daemon || IsLibrary(b.Name) {
+			continue
 		}
+		if b.Name == "serveone" && b.Note == "" {
+			continue // idle server: waiting for the next invoke inside the library, not in a handler
+		}
+		out = append(out, b)
 	}
 	return out
 }
